@@ -188,3 +188,19 @@ TEXT = {
         "technique": "contract-based deductive verification: own VC generator over the real source + z3/cvc5 (plus one syntactic obligation on a module constant)",
     },
 }
+
+TEXT["C08"] = {
+    "level": "Crash-invariant proof over the real _FilesystemDataSource write path: output and _write_non_versioned_link are symbolically executed against a stated contract for the "
+             "file-system primitives (open-for-write truncates in one step, write / copyfileobj, close, os.replace, makedirs, each with its OSError outcome), and the store invariant "
+             "'every link file that exists is complete and names a complete version file of its own key; complete version files never change; no other link changes; the written key's "
+             "link is the old one or the new complete version' is proved in EVERY intermediate state (after each primitive's normal or exceptional outcome = every crash point and every "
+             "reported I/O error), not only at exit. Under that invariant exists_nonversioned, get_versioned_key, _read_non_versioned_link, input_nonversioned / input_versioned are proved to "
+             "answer exactly 'the link exists', to return a complete version and to raise OSError only when the file is absent. One level up, the same step obligation is proved for "
+             "BlobStrategy.store (integrity invariant J, links, old versions after every data-source call) and StorageBackendBase.memoize (every stored memento stays readable after the cache put, "
+             "the data write and the memento write, whichever of them fails: the data-before-memento write order), and DataSourceMetadataSource.get_mementos is proved never to let an I/O error escape.",
+    "note": "Partial. Assumed (the OS model and path algebra are the trusted base): the primitive contracts in contracts/crash.py; link / version-file / temporary paths are disjoint families of the "
+            "(escaped) key and version (memento's key space), uuid4 is fresh; the step from the file-system view to the abstract DataSource view used by BlobStrategy.store / memoize is a stated refinement "
+            "argument; real process death is represented by 'stop after a primitive'. Not covered here: memento_run_local's handlers (proved under C02/C10), is_memoized's list comprehension over "
+            "exists_nonversioned, delete paths, the JSON decode of a complete memento file, concurrent writers (C09). Found and repaired: D11 (link files were created empty and filled in place).",
+    "technique": "contract-based deductive verification: own VC generator over the real source + z3/cvc5",
+}
